@@ -11,6 +11,7 @@ Behavioural where cheap:
   * wsgiErrorPage          - error.html as error_render.render walks it (stripped lines, <style> block
                          verbatim) cut into literal / placeholder segments by Python's own
                          string.Formatter
+  * wsgiClassMutables      - dict/list/set valued class attributes and module globals of the package
   * wsgiCastMaxLoops       - the loop bound of Ombott._cast (from its source text)
   * defaultContentType, defaultStatus, errorDefaultStatus, catchall, debug
 """
@@ -100,6 +101,36 @@ def _error_page():
     return out
 
 
+def class_level_mutables():
+    """every dict / list / set valued attribute of a class or module of the package under test
+    (enum bookkeeping excluded): the places where state could outlive a request besides the
+    per-thread request / response objects"""
+    import importlib
+    import inspect as _inspect
+    import pkgutil
+    import enum
+    pkg = importlib.import_module('ombott')
+    names = ['ombott'] + [m.name for m in pkgutil.walk_packages(pkg.__path__, 'ombott.')]
+    out = []
+    for mn in sorted(names):
+        try:
+            mod = importlib.import_module(mn)
+        except Exception:      # optional server adapters etc.
+            continue
+        for name, obj in sorted(vars(mod).items()):
+            if name.startswith('__'):
+                continue
+            if isinstance(obj, (dict, list, set)):
+                out.append(f'{mn}:{name}:{type(obj).__name__}')
+            if _inspect.isclass(obj) and obj.__module__ == mn and not issubclass(obj, enum.Enum):
+                for an, av in sorted(vars(obj).items()):
+                    if an.startswith('__') and an.endswith('__'):
+                        continue
+                    if isinstance(av, (dict, list, set)):
+                        out.append(f'{mn}:{obj.__name__}.{an}:{type(av).__name__}')
+    return out
+
+
 def generate():
     import importlib
     om = importlib.import_module('ombott.ombott')
@@ -136,6 +167,9 @@ def generate():
     o.append('/-- error.html as render() emits it: (is placeholder, literal text or placeholder name) -/')
     o.append('def wsgiErrorPage : List (Bool × String) := [\n  ' +
              ',\n  '.join(f'({lbool(h)}, {lstr(t)})' for h, t in page) + ']\n')
+    o.append('/-- class-level and module-level mutable containers of the package (module:Class.attr:type) -/')
+    o.append('def wsgiClassMutables : List String := [\n  ' +
+             ',\n  '.join(lstr(x) for x in class_level_mutables()) + ']\n')
     o.append(f'def wsgiCastMaxLoops : Nat := {int(m.group(1))}\n')
     o.append(f'def wsgiDefaultContentType : String := {lstr(rsp.BaseResponse.default_content_type)}')
     o.append(f'def wsgiDefaultStatus : Nat := {int(rsp.BaseResponse.default_status)}')
